@@ -35,7 +35,7 @@ FinalsFor(p) == {<<>>, Dec1(p), p, Inc(p), U32, Inc(U32), Inc(U63), U64, <<1>>} 
 Currencies == {752, 826, 978}
 Receipts == {1, 9, 10, 99, 100, 231, 999, 1000, 9999}
 \* (the long ones put the reservation / the release on both sides of the 254 / 255 byte APDU length switch)
-Toks == {<<97>>, <<65, 67>>, <<255, 1, 128>>, Ascii(40, 3), <<32>>, Ascii(7, 50)} \cup {Ascii(n, 11) : n \in 222..230}
+Toks == {<<97>>, <<65, 67>>, <<255, 1, 128>>, Ascii(40, 3), <<32>>, Ascii(7, 50), Ascii(225, 11), Ascii(228, 11)}
 Statuses == {[amount |-> <<2, 5, 0, 0>>, trace |-> <<9, 7, 5>>, date |-> <<4, 5>>, time |-> <<2, 2, 5, 5, 5, 8>>, terminal_id |-> <<5, 2, 5, 2, 3, 5, 3, 5>>],
              [amount |-> <<>>, trace |-> <<>>, date |-> <<1>>, time |-> <<5>>, terminal_id |-> <<7>>],
              [amount |-> N9(12), trace |-> N9(6), date |-> <<1, 2, 3, 1>>, time |-> <<2, 3, 5, 9, 5, 9>>, terminal_id |-> N9(8)],
@@ -53,6 +53,9 @@ ResShape(x) ==
     [] k = 1 -> [o |-> "ok", receipt |-> x[4], early_status |-> TRUE]
     [] k = 2 -> [o |-> "ok", receipt |-> x[4], late_status |-> TRUE]
     [] OTHER -> [o |-> "ok", receipt |-> x[4], two_receipts |-> TRUE]
+\* reference tokens of every length around the one-byte / two-byte TLV length switch of the reference container and around the
+\* short / extended APDU length switch of the request
+LongTokCases == SetSeq({<<<<2, 5, 0, 0>>, <<1>>, 978, 231, Ascii(n, 11), 1>> : n \in (100..140) \cup (218..232)})
 C08Scenario(x) ==
   LET st == SetSeq(Statuses)[x[6]] IN
   [config |-> [BaseCfg EXCEPT !.pre = x[1], !.currency = x[3]],
@@ -143,7 +146,10 @@ HsFaults == (IF Mode = "C10" THEN {} ELSE {[connect |-> "refused"], [sysinfo |->
                                            [sysinfo |-> [serial |-> "17FD1E3"]], [sysinfo |-> [serial |-> "7FD1E3C"]]}
                                           \* the terminal refuses to register / to identify itself
                                           \cup {[sysinfo |-> [o |-> "abort", code |-> c]] : c \in {0, 108, 131, 160, 255}}
-                                          \cup {[registration |-> [o |-> "abort", code |-> c]] : c \in {0, 131}})
+                                          \cup {[registration |-> [o |-> "abort", code |-> c]] : c \in {0, 131}}
+                                          \* the registration completion reports terminal id and currency; the serial number still decides
+                                          \cup {[registration |-> [rich |-> TRUE]], [registration |-> [rich |-> TRUE], sysinfo |-> [serial |-> "DEADBEEF"]],
+                                                 [registration |-> [rich |-> TRUE, terminal_id |-> "11112222"], sysinfo |-> [serial |-> "2B00C0DE"]]})
             \cup {[connect |-> "stall"]}
             \cup {[registration |-> [fault |-> [pos |-> p, kind |-> k]]] : p \in 0..1, k \in FaultKinds}
             \cup {[sysinfo |-> [fault |-> [pos |-> p, kind |-> k]]] : p \in 0..1, k \in FaultKinds}
@@ -184,7 +190,7 @@ FaultScenario(x) ==
    plan |-> [exchanges |-> pl, handshake |-> IF x.k = "hs" THEN <<x.hs>> ELSE <<>>,
              default |-> OkPlan]]
 
-Cases == CASE Mode = "C08" -> C08Cases [] Mode = "C18" -> C18Cases [] Mode = "C20" -> C20Cases \o C20Retry [] Mode \in {"C09", "C10"} -> FaultCases
+Cases == CASE Mode = "C08" -> C08Cases \o LongTokCases [] Mode = "C18" -> C18Cases [] Mode = "C20" -> C20Cases \o C20Retry [] Mode \in {"C09", "C10"} -> FaultCases
 AllCases == SubSeq(Cases, 1, Len(Cases))
 ScenarioOf(x) == CASE Mode = "C08" -> C08Scenario(x) [] Mode = "C18" -> C18Scenario(x) [] Mode = "C20" -> C20Scenario(x)
                    [] Mode \in {"C09", "C10"} -> FaultScenario(x)
